@@ -109,17 +109,21 @@ class Impl(object):
         try:
             if k == 'idle':
                 pass
-            elif k == 'sub':
-                self.session.subscribe(hx(ev[1]).decode())
-            elif k == 'unsub':
-                self.session.unsubscribe(hx(ev[1]).decode())
-            elif k == 'pub':
-                self.session.publish(hx(ev[1]).decode(), hx(ev[2]))
-            elif k == 'read':
-                self.readers.append(asyncio.ensure_future(self.session.read()))
-            elif k == 'close':
-                if self.close_task is None:
-                    self.close_task = asyncio.ensure_future(self.session.close())
+            elif k in ('sub', 'unsub', 'pub', 'read', 'close'):
+                # an application call that raises is an observation, not harness trouble
+                try:
+                    if k == 'sub':
+                        self.session.subscribe(hx(ev[1]).decode())
+                    elif k == 'unsub':
+                        self.session.unsubscribe(hx(ev[1]).decode())
+                    elif k == 'pub':
+                        self.session.publish(hx(ev[1]).decode(), hx(ev[2]))
+                    elif k == 'read':
+                        self.readers.append(asyncio.ensure_future(self.session.read()))
+                    elif self.close_task is None:
+                        self.close_task = asyncio.ensure_future(self.session.close())
+                except Exception as e:
+                    self.out.append('raised:%s:%s' % (k, type(e).__name__))
             elif k == 'accept':
                 fut, factory = self.attempts.pop(0)
                 self.nconn += 1
@@ -309,6 +313,7 @@ def monitors(res, cfg, events, lines, script):
     live = False
     no_reconnect = None
     loss_delay = 1000 if script.get('client') == 'twisted' else 0
+    app_raised = None
     for ev, line in zip(events, lines):
         outs = [o for o in line.split(';') if o]
         k = ev[0]
@@ -345,6 +350,8 @@ def monitors(res, cfg, events, lines, script):
         elif k == 'close':
             closed = True
         for o in outs:
+            if o.startswith('raised:') and app_raised is None:
+                app_raised = (k, o.split(':')[2])
             if o == 'T' and closed and k != 'close':
                 attempts_after_close += 1
             if o == 'closeDone':
@@ -392,7 +399,17 @@ def monitors(res, cfg, events, lines, script):
                 res.violation('C11', 'write-before-info', 'asyncio session wrote %d frame(s) on connection %d before any OP_INFO arrived' % (len(ws), kk), script)
             continue
         if not ws:
-            continue   # the connection may have been dropped before INFO was processed (earlier bad frame)
+            # the connection may have been dropped before INFO was processed (an earlier bad frame); but when the
+            # very first frame the broker sent on it is a well-formed OP_INFO, the client must have answered
+            try:
+                first_ok = frames[0][0] == P.OP_INFO and bool(frames[0][1][1:1 + frames[0][1][0]].decode() or True)
+            except Exception:
+                first_ok = False
+            if first_ok:
+                res.violation('C13' if kk > 1 else 'C11', 'no-auth-on-connection',
+                              'asyncio session: connection %d received a complete OP_INFO as its first frame and the client never sent OP_AUTH on it%s'
+                              % (kk, ' (a re-connection: the session does not come back)' if kk > 1 else ''), script)
+            continue
         n = info[1][0]
         rand = info[1][1 + n:]
         want_auth = P.msgauth(rand, ident, secret)
@@ -409,6 +426,9 @@ def monitors(res, cfg, events, lines, script):
         want = sorted(P.msgsubscribe(ident, ch.decode()) for ch in wanted_then)
         if sorted(subs) != want:
             res.violation('C11', 'resubscribe-set', 'asyncio session: after OP_AUTH on connection %d it subscribed to %d channel(s); the application wants %r' % (kk, len(subs), sorted(wanted_then)), script)
+    if app_raised is not None:
+        prop = {'read': 'C12', 'close': 'C13'}.get(app_raised[0], 'C11')
+        res.violation(prop, 'app-call-raised', 'asyncio session: the application call %s() raised %s' % app_raised, script)
     # C13
     if no_reconnect is not None:
         res.violation('C13', 'no-reconnect', 'asyncio session made no new connection attempt although the previous connection/attempt failed and the retry delay has passed (event %r at t=%d ms)' % no_reconnect, script)
